@@ -736,14 +736,19 @@ Error BaseBuilder::embed_const_pool(const Label& label, const ConstPool& pool) {
     return report_error(make_error(Error::kLabelAlreadyBound));
   }
 
-  ASMJIT_PROPAGATE(align(AlignMode::kData, uint32_t(pool.alignment())));
-  ASMJIT_PROPAGATE(bind(label));
+  // Create both nodes before linking anything - a failed allocation must not leave the align node and the bound label behind.
+  AlignNode* align_node;
+  ASMJIT_PROPAGATE(new_align_node(Out(align_node), AlignMode::kData, uint32_t(pool.alignment())));
+  ASMJIT_ASSUME(align_node != nullptr);
 
   EmbedDataNode* node;
   ASMJIT_PROPAGATE(new_embed_data_node(Out(node), TypeId::kUInt8, nullptr, pool.size()));
   ASMJIT_ASSUME(node != nullptr);
 
   pool.fill(node->data());
+
+  add_node(align_node);
+  add_node(label_node);
   add_node(node);
   return Error::kOk;
 }
